@@ -9,7 +9,7 @@ use crate::{Cfg, Meta, Tier};
 use tyme4rs::tyme::jd::JulianDay;
 use tyme4rs::tyme::lunar::LunarDay;
 
-fn check_day(n: i64, sixty_route: bool, log: &mut Log) {
+fn check_day(n: i64, sixty_route: bool, stepped_route: bool, log: &mut Log) {
   let key = cal::fmt_dn(n);
   let want_p = cal::day_pillar(n);
   let want_w = cal::weekday(n);
@@ -69,6 +69,40 @@ fn check_day(n: i64, sixty_route: bool, log: &mut Log) {
       Err(msg) => log.violate(format!("C07/pillar-sixty-route/{}", key), "get_sixty_cycle_day()", key.clone(), format!("panic: {}", msg), crate::model::ganzhi::pillar_name(want_p)),
     }
   }
+  if stepped_route && !cal::reform_era_near(n) && n + 40 < LAST && n > cal::FIRST + 400 {
+    // stepped route: a lunar date whose memos are already filled is stepped by k days; the pillar of
+    // the result must be that of day n + k by every route (lunar date, sexagenary-day view, civil date)
+    for k in [1i64, -1, 3, 29, -30] {
+      if cal::reform_era_near(n + k) {
+        continue;
+      }
+      log.ev(1);
+      log.count("day.stepped_from_a_warm_lunar_date", 1);
+      let want = cal::day_pillar(n + k);
+      let r = guard(|| {
+        let l = sd_of_dn(n).get_lunar_day();
+        let _ = l.get_sixty_cycle_day();
+        let _ = l.get_solar_day();
+        let s = tyme4rs::tyme::Tyme::next(&l, k as isize);
+        let v = s.get_sixty_cycle_day();
+        (s.get_sixty_cycle().get_index() as i64, v.get_sixty_cycle().get_index() as i64, dn_of(&s.get_solar_day()), dn_of(&v.get_solar_day()), s.get_week().get_index() as i64)
+      });
+      match r {
+        Ok((p1, p2, d1, d2, w)) => {
+          if p1 != want || p2 != want || d1 != Some(n + k) || d2 != Some(n + k) || w != cal::weekday(n + k) {
+            log.violate(
+              format!("C07/pillar-after-stepping/{}_step_{:+}", key, k),
+              "LunarDay::next from a value with filled memos",
+              format!("{} next({})", key, k),
+              format!("lunar-route pillar {} view pillar {} civil day {:?} view day {:?} weekday {}", crate::model::ganzhi::pillar_name(p1), crate::model::ganzhi::pillar_name(p2), d1.map(cal::fmt_dn), d2.map(cal::fmt_dn), w),
+              format!("pillar {} on {} weekday {}", crate::model::ganzhi::pillar_name(want), cal::fmt_dn(n + k), cal::weekday(n + k)),
+            );
+          }
+        }
+        Err(msg) => log.violate(format!("C07/pillar-after-stepping/{}_step_{:+}", key, k), "LunarDay::next", key.clone(), format!("panic: {}", msg), "no panic".into()),
+      }
+    }
+  }
   log.sample(|| format!("{} (day number {}): pillar {} weekday {}", key, n, crate::model::ganzhi::pillar_name(want_p), want_w));
 }
 
@@ -115,7 +149,9 @@ pub fn run(cfg: &Cfg) -> (Log, Meta) {
       Tier::Thorough => true,
       Tier::Quick => sample.binary_search(&c.date(n).0).is_ok(),
     };
-    check_day(n, sixty, l)
+    // the stepped route costs five more conversions per day: every 4th sampled day in quick
+    let stepped = sixty && (cfg.tier == Tier::Thorough || (n as u64) % 4 == cfg.seed % 4);
+    check_day(n, sixty, stepped, l)
   }));
   let lunar_years: Vec<i64> = match cfg.tier {
     Tier::Thorough => (0..=9999).collect(),
@@ -128,10 +164,11 @@ pub fn run(cfg: &Cfg) -> (Log, Meta) {
   log.floor("day.cutover_adjacency_1582", 2);
   log.floor("day.lunar_month_boundary_adjacencies", 100_000);
   log.floor("day.sixty_cycle_day_route", cfg.tier.pick(100_000, 3_600_000));
+  log.floor("day.stepped_from_a_warm_lunar_date", cfg.tier.pick(25_000, 3_000_000));
   log.floor("lunar.days_from_the_lunar_side", cfg.tier.pick(50_000, 3_600_000));
   let meta = Meta {
     rule: format!(
-      "exhaustive over all 3,652,061 civil dates for the lunar-date route to the pillar and the three weekday routes (SolarDay, JulianDay, LunarDay), each compared with (N+49) mod 60 and (N+1) mod 7 on the harness day number N; the sexagenary-day route on {}; every lunar (year, month, day) of {} lunar years from the lunar side. Non-trivial = adjacencies across month starts (counted; year starts, the 1582 cut-over and lunar month boundaries are counted separately).",
+      "exhaustive over all 3,652,061 civil dates for the lunar-date route to the pillar and the three weekday routes (SolarDay, JulianDay, LunarDay), each compared with (N+49) mod 60 and (N+1) mod 7 on the harness day number N; the sexagenary-day route on {} (on the same days, every 4th of them in quick, also: a lunar date with filled memos stepped by +1, -1, +3, +29, -30 days must carry the pillar of the target day by every route); every lunar (year, month, day) of {} lunar years from the lunar side. Non-trivial = adjacencies across month starts (counted; year starts, the 1582 cut-over and lunar month boundaries are counted separately).",
       match cfg.tier {
         Tier::Thorough => "every civil date".to_string(),
         Tier::Quick => format!("every date of {} sampled years", sample.len()),
